@@ -156,14 +156,25 @@ CHECKS = {
         note=TRUST + "tree serialiser and string abstraction (empty / contains placeholder) trusted.",
         ref="DESIGN.md section 4 C01"),
     "C03": dict(
-        technique="Coq proof (attribute maps written by to_attrs are read back exactly by the parse_attrs scanner model) + scanner correspondence + structure oracle",
+        technique="Coq proofs (attribute maps written by to_attrs are read back exactly by the parse_attrs scanner model; the table "
+                  "handlers as a stack machine read every written table into the written grid) + scanner and table-machine "
+                  "correspondence + structure oracle",
         text="Theorem c03_attribute_map_roundtrip: for every map of distinct URL-safe names and quote-free values, "
              "parse_attrs(to_attrs m) = m in the scanner model of the attribute regex; the model is run against the real "
-             "parse_attrs on 2000+ generated attribute strings, well-formed and malformed. PARTIAL: that an r x c grid (both "
-             "separator styles, caption, attributes on table/rows/cells), every paired allowed HTML tag with attributes and "
-             "content, links, external links and template calls parse to exactly the written structure is decided by "
-             "execution against the generator's structure, not by a theorem about the table handlers.",
-        note=TRUST + "table/tag handlers, tokenizer and encoder exercised, not modelled; ASCII word characters.",
+             "parse_attrs on 2000+ generated attribute strings, well-formed and malformed. Theorem "
+             "c03_tables_parse_to_written_grid (+ c03_table_is_one_child_of_what_is_open, c03_written_tree_is_the_grid): the "
+             "table handlers (table_start/caption/row/hdr_cell/cell/end_fn, double_vbar_fn, vbar_fn, the attribute checks), "
+             "transcribed as a machine over the parser stack (Model/Tables.v), read every written table - any number of rows "
+             "and cells, one cell per line or ||/!! separated, caption, attributes on table, rows, caption and cells, tables "
+             "nested in cells to any depth - into exactly one TABLE node with the written rows and cells of the written kind, "
+             "attributes and content, and never reach an untranscribed case; the machine is compared inside Coq with the "
+             "real parser's table skeleton on written tables and on arbitrary soups of table tokens. PARTIAL: the theorem is "
+             "at the level of the handlers' tokens with text abstracted to atoms; cell contents with templates/links/markup, "
+             "every paired allowed HTML tag with attributes and content, links, external links and template calls are "
+             "decided by execution against the generator's structure.",
+        note=TRUST + "tokenizer, text_fn beyond appending plain text, tag handlers and encoder exercised, not modelled; "
+             "check_for_attributes' second branch (attribute text containing nodes) is outside the machine (it stops there; "
+             "such token sequences are counted and skipped); ASCII word characters.",
         ref="DESIGN.md section 4 C03"),
     "C19": dict(
         technique="Coq proofs (attribute round trip; bracket protection leaves no double bracket) + protect correspondence + three-parse round-trip oracle",
